@@ -281,6 +281,8 @@ pub struct Gen {
     /// profile name (a generator may serve several profiles)
     pub variant: &'static str,
     pub flipped: bool,
+    /// steering: remove every live key of `a` one by one (an EMPTIED table that still holds tombstones)
+    pub emptying: bool,
     /// scripted prelude (ops issued before the generator takes over); `INS k` = insertion of key k
     pub script: std::collections::VecDeque<String>,
 }
@@ -289,7 +291,7 @@ impl Gen {
     pub fn new(seed: u64, universe: u64, profile: &'static str) -> Self {
         let mut rng = Rng::new(seed);
         let target_buckets = if profile == "table-churn" { *rng.pick(&[32usize, 64, 128, 128, 256]) } else { *rng.pick(&[16usize, 16, 32, 32, 64, 128]) };
-        Gen { rng, universe, next_id: 1, profile, phase: 0, fresh_key: 0, target_buckets, variant: profile, flipped: false, script: Default::default() }
+        Gen { rng, universe, next_id: 1, profile, phase: 0, fresh_key: 0, target_buckets, variant: profile, flipped: false, emptying: false, script: Default::default() }
     }
     pub fn id(&mut self) -> u64 {
         let i = self.next_id;
@@ -356,6 +358,24 @@ impl Gen {
                 Some(k) => format!("a {}", self.insert(k.parse().unwrap())),
                 None => op,
             };
+        }
+        // Steering shared by the single-collection profiles: now and then a tombstone-carrying table is
+        // emptied by removals (len 0, removed-slot markers still there) and then cleared / refilled.
+        if matches!(self.variant, "churn" | "churn-long" | "churn-window" | "saturate" | "mixed" | "table" | "table-churn" | "set" | "retain-chain") {
+            let d = r.dump("a");
+            let tomb = !d.is_singleton && d.ctrl[..=d.bucket_mask].iter().any(|&c| c == 0x80);
+            if d.items == 0 {
+                let was = std::mem::replace(&mut self.emptying, false);
+                if tomb && (was || self.rng.chance(1, 2)) {
+                    return "a clear".to_string();
+                }
+            } else if self.emptying {
+                if let Some(k) = self.present_key(r, "a") {
+                    return format!("a remove {}", k);
+                }
+            } else if tomb && d.items <= 48 && self.rng.chance(1, 70) {
+                self.emptying = true;
+            }
         }
         match self.profile {
             "grow" => {
